@@ -118,6 +118,10 @@ def main():
 
     evdir = os.path.join(HERE, "evidence")
     os.makedirs(os.path.join(evdir, "replay"), exist_ok=True)
+    if not a.no_evidence:
+        for f in os.listdir(os.path.join(evdir, "replay")):
+            if f.startswith(pid + "-"):
+                os.unlink(os.path.join(evdir, "replay", f))
     for ob, k in known_hits:
         print("KNOWN-FINDING: property=%s %s %s %s -- %s" % (pid, ob.rule, ob.fn_q, ob.construct, k.get("fails", "")))
     if broken:
